@@ -117,8 +117,11 @@ inline void register_universe(std::vector<TypeOps>& l) {
   // tables
   REGQ(T1<u8>) REGQ(T1<i64>) REGQ(T1<string>) REGQ(T1<float>) REGQ(T1<bool>) REGQ(T1<EI16>) REGQ(T1<vector<u32>>)
   REGQ(T2<u8, i16>) REGQ(T2<u32, string>) REGQ(T2<string, i64>) REGQ(T2<float, bool>) REGQ(T2<vector<string>, char>)
-  REGQ(T3<u8, string>) REGQ(T3<string, i64>) REGQ(T0H<string>) REGQ(T0H<u32>) REGQ(TZ<i16>) REGQ(TZ<string>)
+  REGQ(T3<u8, string>) REGQ(T3<string, i64>) REGQ(T3A<u8, string>) REGQ(T0H<string>) REGQ(T0H<u32>) REGQ(TZ<i16>) REGQ(TZ<string>)
   REGT(T1<char>) REGT(T1<u32>) REGT(T2<i64, i64>) REGT(T3<float, vector<u8>>)
+  // entries whose value has a length prefix that changes class between element count and byte count
+  REGQ(T1<std::u16string>) REGQ(T2<std::u32string, vector<u16>>) REGQ(T1<vector<i64>>) REGQ(T2<std::wstring, array<u32, 40>>)
+  REGQ(S2<std::u16string, vector<u32>>) REGQ(vector<std::u16string>) REGQ(Optional<std::u32string>) REGQ(map<i32, std::u16string>)
   // ---------------------------------------------------------------- D2: every ordered pair of constructors
   // vector<K<..>>
   REGQ(vector<vector<u8>>) REGQ(vector<array<u32, 3>>) REGQ(vector<CA<i16, 2>>) REGQ(vector<pair<u8, string>>)
